@@ -210,4 +210,27 @@ theorem markEdgeLoop_no_shared_segment_panic (thisI otherI : Nat) :
       exact markAsNeighbours_shared thisI otherI e _ t o edge k ht ho (by rw [hasI]; exact hseg) hk m' h5
     · exact ih _ _ _ h4
 
+/-- **the fuel of the model's ear-clipping loop is immaterial**: once `count + fuel ≥ 1001` more fuel changes nothing, because
+    the loop's own `count > 1000` exit fires before the fuel can run out (so the model's `1001` is "enough", and the
+    model's out-of-fuel outcome is never what decides a result) -/
+theorem fromPolygonLoop_fuel_irrelevant (poly : Polygon α) :
+    ∀ (f : Nat) (theLoop : Loop α) (t : Mesh α) (anchor count : Nat), 1000 ≤ count + f →
+      fromPolygonLoop poly (f + 1) theLoop t anchor count = fromPolygonLoop poly (f + 2) theLoop t anchor count := by
+  intro f
+  induction f with
+  | zero =>
+    intro theLoop t anchor count h
+    rw [excessive_iterations poly 0 theLoop t anchor count (by omega),
+      excessive_iterations poly 1 theLoop t anchor count (by omega)]
+  | succ g ih =>
+    intro theLoop t anchor count h
+    by_cases hc : 1000 ≤ count
+    · rw [excessive_iterations poly (g + 1) theLoop t anchor count hc,
+        excessive_iterations poly (g + 2) theLoop t anchor count hc]
+    · have ih' : ∀ (L : Loop α) (t' : Mesh α) (a' : Nat),
+          fromPolygonLoop poly (g + 1) L t' a' (count + 1) = fromPolygonLoop poly (g + 2) L t' a' (count + 1) :=
+        fun L t' a' => ih L t' a' (count + 1) (by omega)
+      rw [fromPolygonLoop, fromPolygonLoop]
+      simp only [ih']
+
 end G3d.C09
